@@ -169,6 +169,7 @@ func runC06(cfg runCfg) error {
 		name := fmt.Sprintf("c06-%d-%d", cfg.seed, i)
 		env := envs[[]int{0, 0, 0, 2, 2, 3, 3}[r.Intn(7)]]
 		limited := r.Intn(3) == 0
+		threeLevels := false
 		env.gw.es.MaxRequestsPerQuery = 50
 		env.world.data = genData(r, env.fed, dataOpts{nullProb: 0.1, safeStrings: true})
 		qo := qOpts{maxDepth: 3 + r.Intn(3), fragments: r.Intn(4) == 0, aliases: true, typename: true, args: true, safeStrings: true}
@@ -177,11 +178,17 @@ func runC06(cfg runCfg) error {
 		var run0 *e2eRun
 		for try := 0; try < 30; try++ {
 			qq, vv, doc := env.genBoundedQuery(r, qo, 300)
-			if env.fx.Name == "shared" && try == 0 && r.Intn(3) == 0 {
+			if env.fx.Name == "shared" && try == 0 && r.Intn(2) == 0 {
 				// two lookups with one insertion point, resolved by two services, under two members of an interface
 				// (same response key for different fields in half of them)
 				k2 := []string{"z", "y"}[r.Intn(2)]
 				qq = "query Op { tools { label ... on Hammer { maker { z: nick } } ... on Gizmo { maker { " + k2 + ": age } } } }"
+				if r.Intn(2) == 0 {
+					// three levels: the keepers come from two services (two parent steps), their rank from a third, at one
+					// insertion point; fault-free and without a limit, so that the orders differ in nothing but the order
+					qq = "query Op { tools { label ... on Gizmo { keeper { rank nick } } ... on Wrench { keeper { rank age } } } }"
+					threeLevels = true
+				}
 				vv = map[string]interface{}{}
 				doc, _ = loadQuery(env.gw.es.MergedSchema, qq)
 				sum.Features["two_lookups_one_insertion_point"]++
@@ -209,7 +216,10 @@ func runC06(cfg runCfg) error {
 				lookups = append(lookups, rq)
 			}
 		}
-		if r.Intn(2) == 0 || (limited && len(lookups) > 0 && r.Intn(3) > 0) {
+		if threeLevels {
+			limited = false
+		}
+		if !threeLevels && (r.Intn(2) == 0 || (limited && len(lookups) > 0 && r.Intn(3) > 0)) {
 			rq := run0.Requests[r.Intn(len(run0.Requests))]
 			if limited && len(lookups) > 0 { // a failing lookup round together with a limit near the number of rounds
 				rq = lookups[r.Intn(len(lookups))]
@@ -245,6 +255,11 @@ func runC06(cfg runCfg) error {
 			prio := map[string]int{}
 			for j, k := range klist {
 				prio[k] = perm[j]
+				if o == 0 {
+					// the order handed to the model correspondence is the one of the plan (here: services by name), which is the
+					// order in which the sequential model merges; the other orders are drawn
+					prio[k] = j
+				}
 			}
 			run, rel, err := env.runScheduled(q, vars, prio, r.Intn(1000), -1)
 			if err != nil {
@@ -286,6 +301,17 @@ func runC06(cfg runCfg) error {
 		if len(faults) > 0 {
 			sum.Features["with_fault"]++
 		}
+		// two independent causes that each abort the execution (the request limit, and a lookup answered with errors and
+		// partial or null data whose ids cannot be read) race for errgroup's single error slot: recorded finding
+		twoAborts := false
+		if limited {
+			for _, f := range faults {
+				if f.Kind == "errors_partial" || f.Kind == "errors_null" {
+					twoAborts = true
+				}
+			}
+		}
+		sum.GoOracle = append(sum.GoOracle, oracleResult{Case: name, Component: "guard.c06_one_abort_cause", OK: !twoAborts})
 		sum.GoOracle = append(sum.GoOracle,
 			oracleResult{Case: name, Component: "prop.c06.same_data_bytes", OK: okBytes, Detail: detail},
 			oracleResult{Case: name, Component: "prop.c06.same_errors", OK: okErrs, Detail: detail})
